@@ -8,7 +8,7 @@ Local Open Scope Z_scope.
 Record c05_facts : Prop := {
   k_minus : 2 <= PING_WINDOW_MINUS <= 10;
   k_plus : 1 <= PING_RECONNECT_PLUS <= 1000;
-  k_wd : 52 <= WATCHDOG_TIMEOUT_S < 4294967296;
+  k_wd : 52 <= WATCHDOG_TIMEOUT_S < 4294966000;
   k_soft : 52 < WATCHDOG_SOFT_TIMEOUT_S
 }.
 Lemma c05_ok : c05_facts. Proof. constructor; vm_compute; repeat split; congruence. Qed.
@@ -148,7 +148,10 @@ Proof.
 Qed.
 
 (* ---------- (3) keep-alive ---------- *)
-Lemma t1_decide_spec up ls lr tmo : 10 <= tmo <= 50 -> 0 <= ls <= up -> 0 <= lr <= up -> up < 4294967296 -> up - lr <= tmo ->
+(* the smallest timeout for which the ping window [tmo - 5, tmo] does not wrap below zero: 5 on this tree *)
+Notation KA_MIN := (Z.max 5 PING_WINDOW_MINUS).
+Lemma KA_MIN_val : KA_MIN = 5. Proof. reflexivity. Qed.
+Lemma t1_decide_spec up ls lr tmo : KA_MIN <= tmo <= 4294966000 -> 0 <= ls <= up -> 0 <= lr <= up -> up < 4294967296 -> up - lr <= tmo ->
   t1_decide up ls lr tmo =
   if ((tmo - PING_WINDOW_MINUS <=? up - ls) && (up - ls <=? tmo)) || ((tmo - PING_WINDOW_MINUS <=? up - lr) && (up - lr <=? tmo))
   then T1_ping else T1_none.
@@ -158,6 +161,28 @@ Proof.
   rewrite (u32_small (up - ls)), (u32_small (up - lr)), (u32_small (tmo + PING_RECONNECT_PLUS)),
           (u32_small (tmo - PING_WINDOW_MINUS)), (u32_small tmo) by lia.
   replace (tmo + PING_RECONNECT_PLUS <=? up - lr) with false by (symmetry; apply Z.leb_gt; lia). reflexivity.
+Qed.
+
+(* below the window: timeout 0 disables the keep-alive altogether; 0 < tmo < 5 makes tmo - 5 wrap to a huge unsigned value,
+   so the device never pings (it only reconnects after tmo + 10 s without a call) *)
+Lemma t1_decide_zero up ls lr tmo : tmo <= 0 -> t1_decide up ls lr tmo = T1_none.
+Proof. intros H. unfold t1_decide. replace (0 <? tmo) with false by (symmetry; apply Z.ltb_ge; lia). reflexivity. Qed.
+Lemma t1_decide_small up ls lr tmo : 0 < tmo < PING_WINDOW_MINUS -> 0 <= ls <= up -> 0 <= lr <= up -> up < 4294967296 ->
+  t1_decide up ls lr tmo <> T1_ping /\ (t1_decide up ls lr tmo = T1_reconnect <-> tmo + PING_RECONNECT_PLUS <= up - lr).
+Proof.
+  intros HT Hs Hr Hu. destruct c05_ok as [Km Kp _ _]. unfold t1_decide.
+  replace (0 <? tmo) with true by (symmetry; apply Z.ltb_lt; lia).
+  rewrite (u32_small (up - ls)), (u32_small (up - lr)), (u32_small (tmo + PING_RECONNECT_PLUS)), (u32_small tmo) by lia.
+  assert (W : u32 (tmo - PING_WINDOW_MINUS) = tmo - PING_WINDOW_MINUS + 4294967296).
+  { unfold u32. rewrite <- (Z.mod_add _ 1) by lia. apply Z.mod_small. lia. }
+  rewrite W.
+  assert (A1 : (tmo - PING_WINDOW_MINUS + 4294967296 <=? up - ls) && (up - ls <=? tmo) = false)
+    by (apply andb_false_iff; destruct (Z_le_dec (up - ls) tmo); [left; apply Z.leb_gt; lia|right; apply Z.leb_gt; lia]).
+  assert (A2 : (tmo - PING_WINDOW_MINUS + 4294967296 <=? up - lr) && (up - lr <=? tmo) = false)
+    by (apply andb_false_iff; destruct (Z_le_dec (up - lr) tmo); [left; apply Z.leb_gt; lia|right; apply Z.leb_gt; lia]).
+  rewrite A1, A2. cbn [orb]. destruct (tmo + PING_RECONNECT_PLUS <=? up - lr) eqn:E.
+  - apply Z.leb_le in E. split; [discriminate|]. split; auto.
+  - apply Z.leb_gt in E. split; [discriminate|]. split; [discriminate|lia].
 Qed.
 
 Record KInv (T : Z) (s : kst) : Prop := {
@@ -172,14 +197,14 @@ Record KInv (T : Z) (s : kst) : Prop := {
   ki_ps_some : forall u0, k_ps s = Some u0 -> u0 - k_ls s <= T - 1 /\ k_lt s = u0 /\ k_cur s <= u0 + 1
 }.
 
-Lemma kinit_inv T u0 ls0 : 10 <= T -> 0 <= ls0 <= u0 -> u0 < 4294967296 -> u0 - ls0 <= T - 3 -> KInv T (kinit u0 ls0).
+Lemma kinit_inv T u0 ls0 : KA_MIN <= T -> 0 <= ls0 <= u0 -> u0 < 4294967296 -> u0 - ls0 <= T - 3 -> KInv T (kinit u0 ls0).
 Proof. intros. constructor; cbn; try lia; try (intros; discriminate). Qed.
 
-Lemma kstep_inv T s e : 10 <= T <= 50 -> KInv T s -> kenv_ok T s e = true -> KInv T (kstep T s e).
+Lemma kstep_inv T s e : KA_MIN <= T <= 4294966000 -> KInv T s -> kenv_ok T s e = true -> KInv T (kstep T s e).
 Proof.
   intros HT [Ib It [In1 In2] [Il1 Il2] Ih Ipn Ips Isn Iss] He.
   destruct c05_ok as [Km Kp _ _].
-  unfold kenv_ok in He. repeat rewrite andb_true_iff in He. destruct He as [[[[E1 E2] E3] E4] E5].
+  unfold kenv_ok, kder_ok, kext_ok in He. repeat rewrite andb_true_iff in He. destruct He as [[[E1 E2] E3] [E4 E5]].
   apply Z.leb_le in E1. apply Z.ltb_lt in E2. apply Z.leb_le in E3.
   destruct e as [u slot|u|u]; cbn [ktime] in *.
   - (* Tick *)
@@ -228,37 +253,54 @@ Proof.
     intros u0 H. destruct (Iss u0 H) as [? [? ?]]. rewrite H in E4. apply Z.leb_le in E4. lia.
 Qed.
 
-Lemma krun_inv T l : forall s, 10 <= T <= 50 -> KInv T s -> kenv_run T s l = true -> KInv T (krun T s l).
+Lemma krun_inv T l : forall s, KA_MIN <= T <= 4294966000 -> KInv T s -> kenv_run T s l = true -> KInv T (krun T s l).
 Proof.
   induction l as [|e r IH]; intros s HT HI HE; cbn [krun]; auto.
   cbn [kenv_run] in HE. apply andb_true_iff in HE. destruct HE as [H1 H2]. apply IH; auto. apply kstep_inv; auto.
 Qed.
 
-(* what the invariant gives in every state of an environment-conforming run *)
-Lemma KInv_bounds T s : 10 <= T <= 50 -> KInv T s ->
-  k_bad s = false /\ k_cur s - k_ls s <= T /\ k_cur s - k_lr s <= T + 2 /\
-  (forall up nw, k_lr s <= up -> up <= k_lt s + 2 -> up < 4294967296 -> wd_decide up (k_lr s) T nw = WD_none).
+(* what the invariant gives in every state of an environment-conforming run: for EVERY granted timeout T >= 10 ... *)
+Lemma KInv_bounds_wide T s : KA_MIN <= T <= 4294966000 -> KInv T s ->
+  k_bad s = false /\ k_cur s - k_ls s <= T /\ k_cur s - k_lr s <= T + 2 /\ k_lt s - k_lr s <= T.
 Proof.
   intros HT [Ib It [In1 In2] [Il1 Il2] Ih Ipn Ips Isn Iss]. split; [auto|].
   assert (B1 : k_cur s - k_ls s <= T).
   { destruct (k_ps s) as [u0|] eqn:P; [destruct (Iss u0 eq_refl) as [? [? ?]]; lia|pose proof (Isn eq_refl); lia]. }
   assert (B2 : k_lt s - k_lr s <= T).
   { destruct (k_pr s) as [u0|] eqn:P; [destruct (Ips u0 eq_refl); lia|pose proof (Ipn eq_refl); lia]. }
-  split; [auto|]. split; [lia|].
-  intros up nw H1 H2 H3. destruct c05_ok as [_ _ Kw Ks]. unfold wd_decide.
+  split; [auto|]. split; [lia|auto].
+Qed.
+(* ... and while T + 2 s of silence is below both watchdog thresholds (T <= 58 on this tree) the watchdog stays inert as well *)
+Notation KA_WD_MAX := (Z.min WATCHDOG_TIMEOUT_S (WATCHDOG_SOFT_TIMEOUT_S - 1) - 2).
+Lemma KA_WD_MAX_val : KA_WD_MAX = 58. Proof. reflexivity. Qed.
+Lemma KInv_bounds T s : KA_MIN <= T <= KA_WD_MAX -> KInv T s ->
+  k_bad s = false /\ k_cur s - k_ls s <= T /\ k_cur s - k_lr s <= T + 2 /\
+  (forall up nw, k_lr s <= up -> up <= k_lt s + 2 -> up < 4294967296 -> wd_decide up (k_lr s) T nw = WD_none).
+Proof.
+  intros HT KI. destruct c05_ok as [_ _ Kw Ks]. destruct (KInv_bounds_wide T s ltac:(lia) KI) as [B0 [B1 [B2 B3]]].
+  split; auto. split; auto. split; auto.
+  intros up nw H1 H2 H3. unfold wd_decide.
   destruct (k_lr s <? up) eqn:E; [|reflexivity].
   rewrite (u32_small (up - k_lr s)) by lia.
   replace (WATCHDOG_TIMEOUT_S <? up - k_lr s) with false by (symmetry; apply Z.ltb_ge; lia).
   replace (WATCHDOG_SOFT_TIMEOUT_S <=? up - k_lr s) with false by (symmetry; apply Z.leb_gt; lia). reflexivity.
 Qed.
 
-Theorem C05_keepalive_thm T u0 ls0 l : 10 <= T <= 50 -> 0 <= ls0 <= u0 -> u0 < 4294967296 -> u0 - ls0 <= T - 3 ->
+Theorem C05_keepalive_thm T u0 ls0 l : KA_MIN <= T <= KA_WD_MAX -> 0 <= ls0 <= u0 -> u0 < 4294967296 -> u0 - ls0 <= T - 3 ->
   kenv_run T (kinit u0 ls0) l = true ->
   let s := krun T (kinit u0 ls0) l in
   k_bad s = false /\ k_cur s - k_ls s <= T /\ k_cur s - k_lr s <= T + 2 /\
   (forall up nw, k_lr s <= up -> up <= k_lt s + 2 -> up < 4294967296 -> wd_decide up (k_lr s) T nw = WD_none).
 Proof.
-  intros HT H0 H1 H2 HE s. apply KInv_bounds; auto. apply krun_inv; auto. apply kinit_inv; lia.
+  intros HT H0 H1 H2 HE s. destruct c05_ok as [_ _ Kw Ks]. apply KInv_bounds; auto. apply krun_inv; auto; [lia|]. apply kinit_inv; lia.
+Qed.
+(* every timeout the server may grant (the protocol allows 10..240; the device applies no clamp of its own) *)
+Theorem C05_keepalive_wide_thm T u0 ls0 l : KA_MIN <= T <= 4294966000 -> 0 <= ls0 <= u0 -> u0 < 4294967296 -> u0 - ls0 <= T - 3 ->
+  kenv_run T (kinit u0 ls0) l = true ->
+  let s := krun T (kinit u0 ls0) l in
+  k_bad s = false /\ k_cur s - k_ls s <= T /\ k_cur s - k_lr s <= T + 2.
+Proof.
+  intros HT H0 H1 H2 HE s. destruct (KInv_bounds_wide T s HT) as [A [B [C _]]]; auto. apply krun_inv; auto. apply kinit_inv; lia.
 Qed.
 
 (* the hypotheses are satisfiable, and pings do happen: T = 10, a tick every second, answers and transmissions in the same second *)
